@@ -615,39 +615,44 @@ func fullRangeIndex(idx ssa.Value, lenOK func(bound ssa.Value) bool) bool {
 		}
 		return false
 	}
+	// a loop counter: phi with one constant initial edge, every other edge being the same step value
+	counter := func(phi *ssa.Phi, init int64, step func(e ssa.Value) bool) bool {
+		if len(phi.Edges) < 2 {
+			return false
+		}
+		inits, steps := 0, 0
+		for _, e := range phi.Edges {
+			if k, ok := constInt(e); ok && k == init {
+				inits++
+			} else if step(e) {
+				steps++
+			} else {
+				return false
+			}
+		}
+		return inits == 1 && steps >= 1
+	}
 	// range shape
 	if add, ok := idx.(*ssa.BinOp); ok && add.Op == token.ADD {
 		if one, ok := constInt(add.Y); ok && one == 1 {
-			if phi, ok := add.X.(*ssa.Phi); ok && len(phi.Edges) == 2 {
-				initOK, stepOK := false, false
-				for _, e := range phi.Edges {
-					if k, ok := constInt(e); ok && k == -1 {
-						initOK = true
-					}
-					if e == ssa.Value(add) {
-						stepOK = true
-					}
-				}
-				if initOK && stepOK && testedAgainstLen(add) {
+			if phi, ok := add.X.(*ssa.Phi); ok {
+				if counter(phi, -1, func(e ssa.Value) bool { return e == ssa.Value(add) }) && testedAgainstLen(add) {
 					return true
 				}
 			}
 		}
 	}
 	// classic shape
-	if phi, ok := idx.(*ssa.Phi); ok && len(phi.Edges) == 2 {
-		initOK, stepOK := false, false
-		for _, e := range phi.Edges {
-			if k, ok := constInt(e); ok && k == 0 {
-				initOK = true
+	if phi, ok := idx.(*ssa.Phi); ok {
+		isStep := func(e ssa.Value) bool {
+			add, ok := e.(*ssa.BinOp)
+			if !ok || add.Op != token.ADD || add.X != ssa.Value(phi) {
+				return false
 			}
-			if add, ok := e.(*ssa.BinOp); ok && add.Op == token.ADD && add.X == ssa.Value(phi) {
-				if one, ok := constInt(add.Y); ok && one == 1 {
-					stepOK = true
-				}
-			}
+			one, ok := constInt(add.Y)
+			return ok && one == 1
 		}
-		if initOK && stepOK && testedAgainstLen(phi) {
+		if counter(phi, 0, isStep) && testedAgainstLen(phi) {
 			return true
 		}
 	}
